@@ -1,5 +1,6 @@
 import Fabio.Driver.Proto
 import Fabio.Model.C11
+import Fabio.Model.C11Load
 namespace Fabio.Driver.C11
 open Lean Fabio.Driver Fabio.Model.C11
 
@@ -281,6 +282,374 @@ def raceH : Handler := fun inp impl => do
   return ({ model := Json.mkObj [("calls", calls.length), ("handshakes", hss.length)], agree := agree, spec := spec,
             nontrivial := overlapping, tag := tag } : Verdict).toJson
 
+/-! ### c11.loaders -/
+
+def hasHarnessError (impl : Json) : Bool := (impl.getObjVal? "harness_error").isOk
+
+def optStrOf (j : Json) (k : String) : Option String :=
+  match j.getObjVal? k with
+  | .ok (.str s) => some s
+  | _ => none
+
+/-- an answer of the scripted server as `loadURL`'s fetch sees it -/
+def fetchOfResp (j : Json) : Fetch (List Char) :=
+  if strOf j "mode" != "" then .fail else .resp (intOf j "st").toNat (strOf j "body").toList
+
+def fetchOfProbe (j : Json) : Fetch (List Char) :=
+  if boolOf j "fail" then .fail else .resp (intOf j "st").toNat (strOf j "body").toList
+
+def startsWithS (u : List Char) : Bool := match u with | 'S' :: _ => true | _ => false
+
+/-- the server as a function of the (canonical) URL: the list where the list URL points at the server, the served
+names under `base`, the harness' own GET for every other line of the list, a failed request otherwise -/
+def serverOf (inp impl : Json) (listURL : List Char) (base : Option (List Char)) : List Char → Fetch (List Char) :=
+  let files := (arrOf inp "files").map fun f => ((strOf f "name").toList, fetchOfResp f)
+  let probe := match impl.getObjVal? "probe" with
+    | .ok (.obj kvs) => kvs.toList.map fun (p : String × Json) => (p.1.toList, fetchOfProbe p.2)
+    | _ => []
+  fun u =>
+    if u == listURL then (if startsWithS listURL then fetchOfResp ((inp.getObjVal? "list").toOption.getD Json.null) else .fail)
+    else match base with
+      | none => .fail
+      | some b =>
+        match files.find? (fun f => b ++ f.1 == u) with
+        | some f => f.2
+        | none => (probe.lookup u).getD .fail
+
+def isOk200 {B : Type} : Fetch B → Bool
+  | .resp 200 _ => true
+  | _ => false
+
+def bodyOf {B : Type} : Fetch B → Option B
+  | .resp _ b => some b
+  | .fail => none
+
+def safeChar (c : Char) : Bool := c.isAlphanum || c == '.' || c == '-' || c == '_' || c == '/'
+
+/-- the request URI the server sees for a canonical URL (plain paths only) -/
+def uriOf (u : List Char) : Option String :=
+  match u with
+  | 'S' :: rest => if rest.all safeChar then some (if rest.isEmpty then "/" else String.ofList rest) else none
+  | _ => none
+
+def blocksJson (m : PemMap (List Char)) : Json :=
+  Json.arr ((canonMap m).map fun e => Json.arr #[Json.str (String.ofList e.1), Json.str (String.ofList e.2)]).toArray
+
+def implBlocks (impl : Json) : List (List Char × List Char) :=
+  (arrOf impl "blocks").filterMap fun e => match e with
+    | .arr #[.str k, .str v] => some (k.toList, v.toList)
+    | _ => none
+
+structure LoadObs where
+  err : Bool
+  isNil : Bool
+  blocks : List (List Char × List Char)
+deriving BEq
+
+def obsOf (r : LoadResult (Option (PemMap (List Char)))) : LoadObs :=
+  match r with
+  | .err => ⟨true, false, []⟩
+  | .blocks none => ⟨false, true, []⟩
+  | .blocks (some m) => ⟨false, false, canonMap m⟩
+
+def obsJson (o : LoadObs) : Json :=
+  Json.mkObj [("err", o.err), ("nil", o.isNil),
+    ("blocks", Json.arr (o.blocks.map fun e => Json.arr #[Json.str (String.ofList e.1), Json.str (String.ofList e.2)]).toArray)]
+
+def implObs (impl : Json) : LoadObs := ⟨boolOf impl "err", boolOf impl "nil", implBlocks impl⟩
+
+def urlH (inp impl : Json) : Verdict :=
+  let listURL := (strOf inp "url").toList
+  let base := (optStrOf impl "base").map String.toList
+  let srv := serverOf inp impl listURL base
+  let run := loadURLRun true (fun _ => base) srv id listURL
+  let mo := obsOf run.2
+  let io := implObs impl
+  -- requests: compared where every requested URL is a plain path on the server
+  let mReq := run.1.map uriOf
+  let iReq := strList (arrOf impl "requests")
+  let reqOk := if mReq.all Option.isSome then mReq.filterMap id == iReq else true
+  -- the property on the implementation's own output, stated without the loop: the load fails iff the list or a
+  -- listed file is not answered 200 OK; otherwise the map is exactly the listed files with their bodies
+  let listF := srv listURL
+  let names := match bodyOf listF with | some b => listedNames b | none => []
+  let badName := match base with
+    | some b => names.find? fun p => !isOk200 (srv (b ++ p))
+    | none => none
+  let (want, tag) : LoadObs × String :=
+    if listURL.isEmpty then (⟨false, true, []⟩, "url-empty")
+    else match base with
+      | none => (⟨true, false, []⟩, "base-error")
+      | some b =>
+        if !isOk200 listF then (⟨true, false, []⟩, match listF with | .fail => "list-transport" | _ => "list-status")
+        else match badName with
+          | some p => (⟨true, false, []⟩,
+              match srv (b ++ p) with
+              | .fail => if p.all safeChar then "file-transport" else "odd-line"
+              | _ => if (arrOf inp "files").any (fun f => (strOf f "name").toList == p) then "file-status" else "file-unserved")
+          | none => (⟨false, false, canonMap (names.filterMap fun p => (bodyOf (srv (b ++ p))).map fun x => (b ++ p, x))⟩,
+              if names.isEmpty then "ok-empty-list" else "ok")
+  { model := Json.mkObj [("load", obsJson mo), ("requests", Json.arr (run.1.map fun u => Json.str (String.ofList u)).toArray)],
+    agree := mo == io && reqOk, spec := io == want,
+    nontrivial := !listURL.isEmpty && base.isSome && isOk200 listF && !names.isEmpty, tag := tag }
+
+/-- what `os.ReadFile` returns for an entry, as the harness canonicalises it -/
+def sparseContent (n : Nat) : List Char :=
+  if n > 4096 then ("#zeros:" ++ toString n).toList else List.replicate n (Char.ofNat 0)
+
+partial def nodeOf (unpriv : Bool) (siblings : List Json) (j : Json) : Node (List Char) :=
+  let name := (strOf j "n").toList
+  let locked := unpriv && boolOf j "locked"
+  let fileContent (f : Json) : Option (List Char) :=
+    if unpriv && boolOf f "locked" then none
+    else if intOf f "size" (-1) ≥ 0 then some (sparseContent (intOf f "size").toNat) else some (strOf f "c").toList
+  match strOf j "t" with
+  | "d" => .dir name (!locked) ((arrOf j "kids").map (nodeOf unpriv (arrOf j "kids")))
+  | "l" =>
+    let to := strOf j "to"
+    let content := match siblings.find? (fun s => strOf s "n" == to) with
+      | some s => if strOf s "t" == "f" then fileContent s else none
+      | none => none
+    .file name to.length content
+  | _ =>
+    let size := if intOf j "size" (-1) ≥ 0 then (intOf j "size").toNat else (strOf j "c").length
+    .file name size (if locked then none else fileContent j)
+
+def visitFails (maxSize : Nat) (root : List Char) (v : Visit (List Char)) : Bool :=
+  match v.kind with
+  | .lstatErr => v.path != root
+  | .dir e => e && v.path != root
+  | .file _ c => selected maxSize v && c.isNone
+
+def pathH (inp impl : Json) : Verdict :=
+  let unpriv := boolOf impl "unpriv"
+  let kind := strOf inp "root"
+  let tree := arrOf inp "tree"
+  let (root, rootNode) : List Char × Root (List Char) :=
+    match kind with
+    | "empty" => ([], .missing [])
+    | "missing" => ("T/root".toList, .missing "root".toList)
+    | "underfile" => ("T/root/certs".toList, .missing "certs".toList)
+    | "dir" => ("T/root".toList, .node (.dir "root".toList (!(unpriv && boolOf inp "root_locked")) (tree.map (nodeOf unpriv tree))))
+    | "link" =>
+      let n := (strOf (tree.head?.getD Json.null) "n").toList
+      ("T/".toList ++ n, .node (.file n (strOf (tree.head?.getD Json.null) "to").length none))
+    | _ =>
+      let n := nodeOf unpriv [] (tree.head?.getD Json.null)
+      ("T/".toList ++ n.name, .node n)
+  let vs := rootNode.visits root
+  let mo := obsOf (loadPath maxSize root vs)
+  let io := implObs impl
+  -- the property on the implementation's own output, without the fold: fails iff something below the root
+  -- cannot be stat'ed / listed or a selected file cannot be read; else exactly the selected files
+  let broken := vs.find? (visitFails maxSize root)
+  let sel := vs.filterMap fun v => match v.kind with
+    | .file _ (some c) => if selected maxSize v then some (v.path, c) else none
+    | _ => none
+  let want : LoadObs :=
+    if root.isEmpty then ⟨false, true, []⟩
+    else if broken.isSome then ⟨true, false, []⟩
+    else ⟨false, false, canonMap sel.reverse⟩
+  let tag :=
+    if root.isEmpty then "path-empty-root"
+    else match broken with
+      | some v => (match v.kind with | .file _ _ => "path-read-error" | _ => "path-walk-error")
+      | none => match kind with
+        | "missing" => "path-missing-root"
+        | "underfile" => "path-root-notdir"
+        | "file" => "path-root-file"
+        | "link" => "path-root-link"
+        | _ => if unpriv && boolOf inp "root_locked" then "path-root-locked" else "path-ok"
+  { model := obsJson mo, agree := mo == io && intOf impl "max_size" == maxSize, spec := io == want,
+    nontrivial := kind == "dir" && vs.length ≥ 3, tag := tag }
+
+def loadersH : Handler := fun inp impl => do
+  if hasHarnessError impl then
+    return ({ model := Json.null, agree := false, spec := true, nontrivial := false, tag := "harness-error" } : Verdict).toJson
+  match strOf inp "kind" with
+  | "url" => return (urlH inp impl).toJson
+  | "path" => return (pathH inp impl).toJson
+  | k => throw s!"unknown kind {k}"
+
+/-! ### c11.source -/
+
+def srcPem (f : Json) : FileC :=
+  let c := intOf f "c" (-1)
+  let k := intOf f "k" (-1)
+  ⟨if c < 0 then none else some c.toNat, if k < 0 then none else some k.toNat⟩
+
+def st200 (n : Int) : Nat := if n == 0 then 200 else n.toNat
+
+def linesBody (ls : List String) : List Char := (String.join (ls.map (· ++ "\n"))).toList
+
+/-- one load of the HTTP source in an epoch -/
+def srcLoadURL (base listURL : List Char) (e : Json) : LoadResult (Option (PemMap Body)) :=
+  let files := (arrOf e "files").map fun f =>
+    ((strOf f "name").toList,
+     if strOf f "mode" != "" then Fetch.fail else Fetch.resp (st200 (intOf f "st")) (⟨[], srcPem f⟩ : Body))
+  let list : Fetch Body :=
+    if strOf e "list_mode" != "" then .fail
+    else .resp (st200 (intOf e "list_st")) ⟨linesBody (strList (arrOf e "lines")), ⟨none, none⟩⟩
+  let srv : List Char → Fetch Body := fun u =>
+    if u == listURL then list
+    else match files.find? (fun f => base ++ f.1 == u) with
+      | some f => f.2
+      | none => .resp 404 ⟨"nf".toList, ⟨none, none⟩⟩
+  loadURL true (fun _ => some base) srv Body.text listURL
+
+def splitSlash (s : List Char) : List (List Char) := splitOn '/' s
+
+/-- the directory of an epoch as a tree: plain files at the top, one directory per first path segment -/
+def srcTree (e : Json) : Root Body :=
+  if boolOf e "missing" then .missing "root".toList else
+  let files := (arrOf e "files").map fun f =>
+    (splitSlash (strOf f "name").toList,
+     (if boolOf f "dangling" then (7, none) else (100, some (⟨[], srcPem f⟩ : Body)) : Nat × Option Body))
+  let top := files.filterMap fun (segs, sc) => match segs with
+    | [n] => some (Node.file n sc.1 sc.2)
+    | _ => none
+  let dirNames := (files.filterMap fun (segs, _) => match segs with
+    | d :: _ :: _ => some d
+    | _ => none).eraseDups
+  let dirs := dirNames.map fun d =>
+    Node.dir d true (files.filterMap fun (segs, sc) => match segs with
+      | d' :: rest@(_ :: _) => if d' == d then some (Node.file (joinDotsWith '/' rest) sc.1 sc.2) else none
+      | _ => none)
+  .node (.dir "root".toList true (top ++ dirs))
+where
+  joinDotsWith (c : Char) : List (List Char) → List Char
+    | [] => []
+    | [l] => l
+    | l :: ls => l ++ c :: joinDotsWith c ls
+
+def srcRoot : List Char := "T/root".toList
+
+def srcLoadPath (e : Json) : LoadResult (Option (PemMap Body)) :=
+  loadPath maxSize srcRoot ((srcTree e).visits srcRoot)
+
+def matOfMap (m : Option (PemMap Body)) : Mat :=
+  m.map fun pm => ((canonMap pm).map fun e => (e.1, e.2.pem)).mergeSort (fun a b => lexLe a.1 b.1)
+
+/-- the epoch as the property reads it, without the loaders: is everything the source announces delivered, and
+which material is that -/
+def srcDeclared (kind : String) (base : List Char) (e : Json) : Option Mat :=
+  let files := arrOf e "files"
+  if kind == "url" then
+    if strOf e "list_mode" != "" || st200 (intOf e "list_st") != 200 then none else
+    let lines := (strList (arrOf e "lines")).filter (· != "")
+    let got := lines.map fun l => files.find? fun f => strOf f "name" == l
+    if got.any (fun g => match g with
+        | some f => strOf f "mode" != "" || st200 (intOf f "st") != 200
+        | none => true) then none
+    else some (some ((got.filterMap id).map fun f => (base ++ (strOf f "name").toList, srcPem f)))
+  else
+    if boolOf e "missing" then some (some []) else
+    let sel := files.filter fun f =>
+      let segs := splitSlash (strOf f "name").toList
+      let last := segs.getLast?.getD []
+      ext last == sPem && !hasDotPrefix last
+    if sel.any (boolOf · "dangling") then none
+    else some (some (sel.map fun f => (srcRoot ++ '/' :: (strOf f "name").toList, srcPem f)))
+
+def sourceH : Handler := fun inp impl => do
+  if hasHarnessError impl then
+    return ({ model := Json.null, agree := false, spec := true, nontrivial := false, tag := "harness-error" } : Verdict).toJson
+  let kind := strOf inp "kind"
+  let epochs := arrOf inp "epochs"
+  if epochs.isEmpty then throw "no epochs"
+  let base := ((optStrOf impl "base").getD "").toList
+  let listURL := (strOf inp "url").toList
+  let script : Array (LoadResult Mat) := (epochs.map fun e =>
+    ((if kind == "url" then srcLoadURL base listURL e else srcLoadPath e).map matOfMap)).toArray
+  let refresh := intOf inp "refresh_ms" * 1000000
+  let o := observe true refresh script (script.size + 64)
+  let model := Json.mkObj [("calls", o.calls), ("pubs", Json.arr (o.pubs.map fun p => Json.arr (p.map fun (n : Nat) => Json.num n).toArray).toArray),
+                           ("returned", o.returned)]
+  let iCalls := intOf impl "calls" (-99)
+  let iPubs := natLists impl "pubs"
+  let iRet := boolOf impl "returned"
+  let agree := iCalls == o.calls && iPubs == o.pubs && iRet == o.returned
+  -- the property on the implementation's own output: no spin, and every published set is the set of an epoch in
+  -- which the source delivered everything it announced (never what is left of a failing or partly failing load)
+  let canonM (m : Mat) : Mat := m.map fun b => b.mergeSort (fun a b => lexLe a.1 b.1)
+  let goodSets := epochs.filterMap fun e => (srcDeclared kind base e).bind fun m => mkCerts (canonM m)
+  let spec := iCalls != -1 && iCalls ≤ iPubs.length + 1 && iPubs.all (fun p => goodSets.contains p)
+  return ({ model := model, agree := agree, spec := spec,
+            nontrivial := o.sawBad || o.pubs.length ≥ 2, tag := kind ++ ":" ++ o.lastTag } : Verdict).toJson
+
+/-! ### c11.e2e -/
+
+def e2eReqs : List (List Char) := ["c0.test", "c1.test", "c2.test", "c3.test", "zzz.test"].map String.toList
+
+def certSetOfIds (ids : List Nat) : CertSet := ids.map fun i => ⟨i, [("c" ++ toString i ++ ".test").toList]⟩
+
+def ansInt : Answer → Int
+  | .cert c => c.id
+  | .noCert => -1
+  | .errNoCerts => -2
+
+def answersOf (f : CertSet → Model.C11.Name → Bool → Answer) (ids : List Nat) (strict : Bool) : List Int :=
+  e2eReqs.map fun r => ansInt (f (certSetOfIds ids) r strict)
+
+structure E2ERes where
+  agree : Bool
+  bad : Option String      -- class of the first epoch at which the property fails on the implementation's answers
+  nontrivial : Bool
+  model : Json
+
+def intLists (j : Json) (k : String) : List (List Int) :=
+  (arrOf j k).map fun a => match a with
+    | .arr xs => xs.toList.map fun x => x.getInt?.toOption.getD (-99)
+    | _ => []
+
+def e2eOne (sc impl : Json) : E2ERes :=
+  let kind := strOf sc "kind"
+  let strict := boolOf sc "strict"
+  let epochs := arrOf sc "epochs"
+  let base := ((optStrOf impl "base").getD "").toList
+  let listURL := base ++ "list".toList
+  let refresh : Int := second
+  -- model: at least two loads in every epoch, the update goroutine applies every publication
+  let (_, _, mAns) := epochs.foldl (fun (acc : St Mat × List Nat × List (List Int)) e =>
+      let (st, cur, out) := acc
+      let r := ((if kind == "url" then srcLoadURL base listURL e else srcLoadPath e).map matOfMap)
+      let (st1, o1) := step true mkCerts refresh st r
+      let (st2, o2) := step true mkCerts refresh st1 r
+      let cur' := (o1 ++ o2).foldl (fun c o => match o with | .publish _ s => s | _ => c) cur
+      (st2, cur', out ++ [answersOf getCertificate cur' strict])) ((⟨none, false⟩ : St Mat), ([] : List Nat), ([] : List (List Int)))
+  -- the property, without loaders and watcher: the answers after an epoch are those of the most recent epoch in
+  -- which the source delivered everything it announced and the pairs were usable
+  let canonM (m : Mat) : Mat := m.map fun b => b.mergeSort (fun a b => lexLe a.1 b.1)
+  let declared := epochs.map fun e => (srcDeclared kind base e).bind fun m => mkCerts (canonM m)
+  let (_, sAns) := declared.foldl (fun (acc : List Nat × List (List Int)) d =>
+      let cur' := d.getD acc.1
+      (cur', acc.2 ++ [answersOf specAnswer cur' strict])) (([] : List Nat), ([] : List (List Int)))
+  let iAns := intLists impl "answers"
+  let hsWant : Int := match mAns.getLast? with
+    | some a => (match a.getLast? with | some i => if i ≥ 0 then i else -1 | none => -1)
+    | none => -1
+  let agree := iAns == mAns && intOf impl "handshake" (-99) == hsWant
+  let bad := ((iAns.zip sAns).zip declared).findSome? fun ((a, b), d) =>
+    if a == b then none else some (if d.isSome then "new-set-not-effective" else "working-set-lost")
+  let bad := if bad.isNone && iAns.length != sAns.length then some "harness-shape" else bad
+  { agree := agree, bad := bad.map (kind ++ ":" ++ ·),
+    nontrivial := (declared.zip (none :: declared)).any (fun (d, p) => d.isNone && p.isSome) ||
+      (declared.filter Option.isSome).length ≥ 2,
+    model := Json.arr (mAns.map fun a => Json.arr (a.map fun (i : Int) => Json.num i).toArray).toArray }
+
+def e2eH : Handler := fun inp impl => do
+  if hasHarnessError impl then
+    return ({ model := Json.null, agree := false, spec := true, nontrivial := false, tag := "harness-error" } : Verdict).toJson
+  let scns := arrOf inp "scns"
+  let impls := match impl with | .arr a => a.toList | _ => []
+  if impls.length != scns.length then
+    return ({ model := Json.null, agree := false, spec := true, nontrivial := false, tag := "harness-shape" } : Verdict).toJson
+  let results := (scns.zip impls).map fun p => e2eOne p.1 p.2
+  let firstBad := results.findSome? (·.bad)
+  return ({ model := Json.arr (results.map (·.model)).toArray, agree := results.all (·.agree), spec := firstBad.isNone,
+            nontrivial := results.any (·.nontrivial), tag := firstBad.getD "ok" } : Verdict).toJson
+
 def streams : List (String × Handler) :=
-  [("c11.select", selectH), ("c11.watch", watchH), ("c11.watch_gap", gapH), ("c11.race", raceH)]
+  [("c11.select", selectH), ("c11.watch", watchH), ("c11.watch_gap", gapH), ("c11.race", raceH),
+   ("c11.loaders", loadersH), ("c11.source", sourceH), ("c11.e2e", e2eH)]
 end Fabio.Driver.C11
